@@ -1,5 +1,6 @@
 import OtelVerif.Common.Line
 import OtelVerif.Model.C15
+import OtelVerif.Model.C15Route
 /-! driver for C15 (model `c15`): the hop model on the harness's ops, and `hopCheck` on what the real hop showed -/
 open OtelVerif OtelVerif.Line OtelVerif.C15
 
@@ -44,7 +45,22 @@ def parseVerdict (s : String) : Option Verdict :=
 def parseOptNat (s : String) : Option (Option Nat) :=
   if s = "-" then some none else s.toNat?.map some
 
+def showRoute : RouteResult → String
+  | .refused => "refused"
+  | .elsewhere => "elsewhere"
+  | .notFound => "notfound"
+  | .delivered a b => s!"delivered:{a.name}:{b.name}"
+
+/-- structural class of a route result, for signatures -/
+def routeKind (g : Signal) : RouteResult → String
+  | .refused => "exporter-refused"
+  | .elsewhere => "sent-elsewhere"
+  | .notFound => "not-found"
+  | .delivered a b => if a = g ∧ b = g then "delivered-to-own-consumer" else "delivered-to-another-signals-consumer"
+
 structure S where
+  sanitize : Option String := none                -- pending `op sanitize`: the configured path
+  route : Option (Signal × RouteResult) := none   -- addressing ops: what the hand SPEC (`specRoute`) prescribes
   cur : Option (Transport × Nat × Outcome × Bool) := none
   wire : Option (Nat × Nat × Option Nat) := none      -- code, http status, retry
   eq : Bool := true
@@ -62,14 +78,14 @@ def handler : Handler S where
           let (w, calls) := grpcFront ⟨auth, true, items, true, true, true⟩ out
           ({ s with cur := some (.grpc, items, out, auth == some false), wire := none, eq := true },
            [s!"obs wire code={w.code} http=0 retry={showOpt w.retry} calls={calls}",
-            s!"obs verdict {showVerdict (expGrpc w)} calls={calls}",
+            s!"obs verdict {showVerdict (expGrpc w)} calls={calls} ecode={expGrpcErrCode w}",
             "obs sink eq=1"])
         else if tr = "http" then
           let ct := if enc = "json" then CType.json else CType.proto
           let (w, calls) := httpFront ⟨auth, true, true, true, ct, true, true, items⟩ out
           ({ s with cur := some (.http, items, out, auth == some false), wire := none, eq := true },
            [s!"obs wire code={w.bodyCode} http={w.status} retry={showOpt w.retryAfter} calls={calls}",
-            s!"obs verdict {showVerdict (expHttp w)} calls={calls}",
+            s!"obs verdict {showVerdict (expHttp w)} calls={calls} ecode={expHttpErrCode w}",
             "obs sink eq=1"])
         else (s, ["obs bad-op"])
       | _, _, _, _, _ => (s, ["obs bad-op"])
@@ -123,6 +139,25 @@ def handler : Handler S where
         ({ s with cur := none, specX := some (shownOf (specGrpcX c ri), "grpc-exporter " ++ " ".intercalate rest) },
          [s!"obs xverdict {shownOf (expGrpcX c ri)}"])
       | _, _ => (s, ["obs bad-op"])
+    | "route" :: rest =>
+      -- addressing: the regenerated URL / registration tables (`hopRoute`) predict the observation; the oracle is the hand spec `specRoute`
+      match (kv rest "sig").bind Signal.ofName?, (kv rest "ep").bind unhex, (kv rest "base").bind unhex,
+            (kv rest "ovt").bind unhex, (kv rest "ovm").bind unhex, (kv rest "ovl").bind unhex,
+            (kv rest "tp").bind unhex, (kv rest "mp").bind unhex, (kv rest "lp").bind unhex with
+      | some g, some ep, some base, some ovt, some ovm, some ovl, some tp, some mp, some lp =>
+        let c : ExpCfg := ⟨ep, [("TracesEndpoint", ovt), ("MetricsEndpoint", ovm), ("LogsEndpoint", ovl)]⟩
+        let rc : RecvCfg := [("TracesURLPath", tp), ("MetricsURLPath", mp), ("LogsURLPath", lp)]
+        ({ s with cur := none, route := some (g, specRoute g c base rc) }, [s!"obs route {showRoute (hopRoute g c base rc)}"])
+      | _, _, _, _, _, _, _, _, _ => (s, ["obs bad-op"])
+    | "sanitize" :: rest =>
+      match (kv rest "p").bind unhex with
+      | some p => ({ s with sanitize := some p }, [s!"obs sanitize {hex (sanitizeURLPath p)}"])
+      | none => (s, ["obs bad-op"])
+    | "groute" :: rest =>
+      match (kv rest "sig").bind Signal.ofName?, (kv rest "ep").bind unhex, (kv rest "addr").bind unhex with
+      | some g, some ep, some addr =>
+        ({ s with cur := none, route := some (g, specRouteGrpc g ep addr) }, [s!"obs groute {showRoute (hopRouteGrpc g ep addr)}"])
+      | _, _, _ => (s, ["obs bad-op"])
     | "conc" :: rest =>
       -- k well-formed requests with an accepting consumer: each is acknowledged and delivered once, as sent
       -- (`C15_consumer_once`, `C15_success_iff_*`, `C15_payload_partial` per request); their overlap in time is
@@ -190,6 +225,30 @@ def handler : Handler S where
                       else if want.startsWith "throttle" then "requested-delay-not-honoured" else "classification-differs-from-spec"
           { s with specX := none, fails := s!"sig=C15/{t}-exporter/{kind} {what} spec={want} exporter={v}" :: s.fails }
       | none => { s with fails := "sig=C15/harness/xverdict-without-op" :: s.fails }
+    | _ :: "sanitize" :: got :: _ =>
+      -- the path the mux will be given must be absolute, and an absolute configured path must be kept (hand statement, no table)
+      match s.sanitize, unhex got with
+      | some p, some g =>
+        let s := { s with sanitize := none }
+        if g.toList.head? ≠ some '/' then { s with fails := s!"sig=C15/route/sanitize/registered-path-is-not-absolute configured={p} registered={g}" :: s.fails }
+        else if p.toList.head? = some '/' ∧ g ≠ p then { s with fails := s!"sig=C15/route/sanitize/absolute-path-changed configured={p} registered={g}" :: s.fails }
+        else if p.toList.head? ≠ some '/' ∧ g ≠ "/" ++ p then { s with fails := s!"sig=C15/route/sanitize/relative-path-not-rooted configured={p} registered={g}" :: s.fails }
+        else s
+      | _, _ => { s with sanitize := none, fails := "sig=C15/route/sanitize/unmarshal-failed-or-unparsable" :: s.fails }
+    | _ :: "groute" :: got :: _ =>
+      match s.route with
+      | some (g, want) =>
+        if got = showRoute want then { s with route := none }
+        else { s with route := none,
+                      fails := s!"sig=C15/route-grpc/{g.name}/spec-{routeKind g want}/observed-{(got.splitOn ":").headD "?"} spec={showRoute want} observed={got}" :: s.fails }
+      | none => { s with fails := "sig=C15/harness/route-obs-without-op" :: s.fails }
+    | _ :: "route" :: got :: _ =>
+      match s.route with
+      | some (g, want) =>
+        if got = showRoute want then { s with route := none }
+        else { s with route := none,
+                      fails := s!"sig=C15/route/{g.name}/spec-{routeKind g want}/observed-{(got.splitOn ":").headD "?"} spec={showRoute want} observed={got}" :: s.fails }
+      | none => { s with fails := "sig=C15/harness/route-obs-without-op" :: s.fails }
     | _ :: "conc" :: rest =>
       match kvNat rest "sent", kvNat rest "acked", kvNat rest "delivered", kvNat rest "matched" with
       | some k, some a, some d, some m =>
